@@ -5,7 +5,12 @@ hence deleted on exit) only if, before the wrapped call ran, it was tested not t
 (pre-existing, non-isolated) path, and only when the wrapped call returned normally; wrapped
 calls that overwrite or destroy their target are preceded by the foreign / created test; exit
 un-patches before it cleans up and deletes only recorded paths; every patch is registered for
-undoing.  Paths reached through untracked APIs and races with other processes are not decided.
+undoing.  By interpretation: the tracked wrappers, run around stubs with the signatures of the
+real os / shutil / pathlib callables, test / record / forget exactly what python binds to the
+path parameters for positional, keyword and mixed calls (and the table's indices name those
+parameters); _abspath of a relative name follows a chdir although helpers are memoised;
+_is_write_mode is right for every mode string open() accepts.
+Paths reached through untracked APIs and races with other processes are not decided.
 """
 
 from __future__ import annotations
